@@ -37,6 +37,27 @@ def build_lab(lab, release, hooks):
     return dst, ""
 
 
+def compile_errors(lab, stderr):
+    """map rustc errors to the module (definition) they occur in and to the property they speak about"""
+    src = open(os.path.join(lab, "src", "main.rs")).read().splitlines()
+    owner = []
+    cur = None
+    for l in src:
+        m = re.match(r"(?:mod|fn run_)m(\d+)", l)
+        if m:
+            cur = int(m.group(1))
+        owner.append(cur)
+    out = []
+    for m in re.finditer(r"error(?:\[E\d+\])?: ([^\n]*)\n\s*--> src/main.rs:(\d+)", stderr):
+        msg, line = m.group(1), int(m.group(2))
+        mod = owner[line - 1] if line - 1 < len(owner) else None
+        text = src[line - 1].strip()[:200] if line - 1 < len(src) else ""
+        out.append({"module": mod, "message": msg, "source": text, "in_driver": bool(re.search(r"^\s*(let|\{|drop|\*)", src[line - 1])) if line - 1 < len(src) else False})
+        if len(out) >= 20:
+            break
+    return out
+
+
 def run_lab(binp, outdir):
     os.makedirs(outdir, exist_ok=True)
     p = subprocess.run([binp, outdir], capture_output=True, text=True, timeout=600)
@@ -80,6 +101,7 @@ def oracles(req, ev, access, prims):
         acc_by_op.setdefault(int(p[0]), []).append(p)
     for m in mods:
         regs = {}   # reg -> (variant, {field: value or None})
+        converted = set()
         live = {}   # droppable value label -> count alive
         fields = m["fields"]
 
@@ -120,6 +142,15 @@ def oracles(req, ev, access, prims):
                 szs = res.split(" ")[1].split(",") if " " in res else []
                 if len(set(szs)) > 1:
                     hits.append(("C03", f"generated record types differ in size/alignment: {szs}", li))
+                for vi, sa in enumerate(szs):
+                    if "/" not in sa:
+                        continue
+                    A = int(sa.split("/")[1])
+                    for f in (m["variants"][vi] if vi < len(m["variants"]) else []):
+                        a = fields[f]["align"]
+                        if a and A % a != 0:
+                            hits.append(("C07", f"record type of variant {vi} has alignment {A}, not a multiple of field {fields[f]['name']}'s alignment {a}: references to it can be misaligned", li))
+                            hits.append(("C02", f"record type of variant {vi} has alignment {A}, not a multiple of field {fields[f]['name']}'s alignment {a}", li))
             elif op in ("new", "newu"):
                 v, r = int(t[1]), int(t[2])
                 ids = m["variants"][v]
@@ -136,12 +167,16 @@ def oracles(req, ev, access, prims):
                 got = res.split(" ")[1] if res.startswith("val ") else res
                 if want is not None and got != want:
                     hits.append(("C04", f"field {fields[f]['name']} holds {want} but the accessor returned {got}", li))
+                    if int(t[1]) in converted:
+                        hits.append(("C05", f"after conversion, field {fields[f]['name']} should hold {want} but the accessor returned {got}", li))
             elif op == "set":
                 v, st = regs[int(t[1])]
                 f = m["variants"][v][int(t[2])]
                 st[f] = t[3]; born(f, t[3])
             elif op == "rename":
                 regs[int(t[2])] = regs.pop(int(t[1]))
+                if int(t[1]) in converted:
+                    converted.add(int(t[2]))
             elif op == "unpack":
                 v, st = regs.pop(int(t[1]))
                 ids = m["variants"][v]
@@ -183,6 +218,7 @@ def oracles(req, ev, access, prims):
                     if sorted(drops) != want:
                         hits.append(("C06", f"conversion destroyed {sorted(drops)}, removed fields were {want}", li))
                 regs[nr] = (v + 1, nst)
+                converted.add(nr)
             elif op in ("clone", "serde"):
                 r, nr = (int(t[1]), int(t[2])) if op == "clone" else (int(t[2]), int(t[3]))
                 v, st = regs[r]
@@ -235,7 +271,7 @@ def run(seed, tier, prims):
         binp, err = build_lab(lab, rel, hooks)
         if binp is None:
             info["errors"].append(f"lab build {name} failed (generated code does not compile?): " + err[-1500:])
-            info["builds"][name] = {"compiled": False}
+            info["builds"][name] = {"compiled": False, "compile_errors": compile_errors(lab, err)}
             continue
         out = os.path.join(base, name)
         rc = run_lab(binp, out)
@@ -264,8 +300,24 @@ def analyse(info, prims):
         seen.add(r)
     res["distinct"] = len(seen)
     res["nontrivial"] = len([r for r in seen if r.split(" ")[1] in ("conv", "set", "clone", "clonefrom", "unpack", "drop", "serde", "newu")])
+    mods_idx = [i for i, r in enumerate(req) if r.startswith("xmod")]
     for name, b in info["builds"].items():
         if not b.get("compiled"):
+            for ce in b.get("compile_errors", []):
+                k = ce.get("module")
+                # last request line of that module
+                line = (mods_idx[k + 1] - 1 if k is not None and k + 1 < len(mods_idx) else len(req) - 1) if k is not None and k < len(mods_idx) else 0
+                while line > 0 and req[line].startswith(("reset", "add", "rm", "close", "build")):
+                    line -= 1
+                msg = f"the lab does not compile ({name}): {ce['message']} at `{ce['source']}`"
+                if re.search(r"no field|missing field|does not have|pattern requires", ce["message"]) and "AndUnpackedOut" in ce["source"] + ce["message"]:
+                    for p in ("C05", "C06"):
+                        res["oracle"].append({"property": p, "message": msg + " — the conversion's result type does not hand back the removed field the definition says it removes", "line": line, "build": name})
+                elif re.search(r"no field|missing field|does not have", ce["message"]):
+                    for p in ("C04", "C05", "C13"):
+                        res["oracle"].append({"property": p, "message": msg, "line": line, "build": name})
+                else:
+                    res["oracle"].append({"property": "C13", "message": msg, "line": line, "build": name})
             continue
         ev = [l for l in open(os.path.join(b["dir"], "events.txt")).read().splitlines() if l != "--"]
         accf = os.path.join(b["dir"], "access.txt")
